@@ -173,6 +173,8 @@ def parseTrailer (s : String) : Option Trailer :=
     if tok.isEmpty then some t
     else if tok.startsWith "ft:" then (parseFt (tok.drop 3).toString).map fun ft => { t with ft := ft, seenFt := true }
     else if tok.startsWith "io:" then (tok.drop 3).toNat?.map fun k => { t with io := some k }
+    -- `io0:` the writer answers zero-length writes instead of a hard error: same net effect
+    else if tok.startsWith "io0:" then (tok.drop 4).toNat?.map fun k => { t with io := some k }
     else if tok.startsWith "rate:" then
       (unhex (tok.drop 5).toString).bind fun bs =>
         match bs with
